@@ -435,9 +435,10 @@ fn run_m<M: RawMutex + 'static>(cfg: &Cfg, ops: &[Op], run: &mut Run) {
                                 }
                                 (St::Sent, None) => {
                                     if bc {
-                                        run.violate("C12", "broadcast-missed", format!("broadcast receive in slot {} completed with None although v{:?} was sent", s, m.sent_id));
+                                        // also C11: receivers still get the values accepted before the (implicit) close
+                                        run.violate2("C12", "C11", "broadcast-missed", format!("broadcast receive in slot {} completed with None although v{:?} was sent", s, m.sent_id));
                                     } else if !m.taken {
-                                        run.violate("C12", "value-lost", format!("receive in slot {} completed with None although v{:?} was sent and not yet received", s, m.sent_id));
+                                        run.violate2("C12", "C11", "value-lost", format!("receive in slot {} completed with None although v{:?} was sent and not yet received", s, m.sent_id));
                                     } else {
                                         run.class(CL_LOSER_NONE);
                                     }
